@@ -10,7 +10,8 @@ def run(ctx, info):
     ctx.assumptions += ["aliases of config/task sub-objects obtained through fresh arrays (np.array(...), get_bounds()) are not aliases of the caller's objects"]
     for n, bad in c07.facts(ctx, info, ("cfg_writes", "task_writes")).items():
         ctx.violation(f"skeleton:{n}:config-write", f"{n}: writes to the caller's configuration / task: {bad}", {"kind": "skeleton", "optimizer": n, "facts": bad})
-    jobs = L.c09_jobs(ctx)
+    from .. import hot
+    jobs = L.c09_jobs(ctx, focus=hot.changed_sources(info))
     obs = search.run_jobs(jobs)
     n = L.c09_decide(ctx, obs)
     ctx.add_cover(n, sum(1 for o in obs if o["ok"]), "every optimizer: model_dump() of the configuration and of the task before and after optimize() (completed or raised), "
